@@ -13,6 +13,8 @@ import (
 	"sort"
 	"strconv"
 	"strings"
+	"sync/atomic"
+	"time"
 )
 
 // ---------- S-expressions (text only; the model side decodes in Gallina) ----------
@@ -77,6 +79,8 @@ type Run struct {
 	violSeen   map[string]int
 	OutDir     string
 	markF      *os.File
+	lastMark   atomic.Value
+	lastMarkAt int64
 }
 
 func NewRun(prop string, seed int64, tier, outDir string) *Run {
@@ -106,6 +110,30 @@ func (r *Run) Mark(what string) {
 	}
 	// one pwrite, no truncation: the reader stops at the first NUL
 	r.markF.WriteAt(append([]byte(what), 0), 0)
+	r.lastMark.Store(what)
+	atomic.StoreInt64(&r.lastMarkAt, time.Now().UnixNano())
+}
+
+// watchdog: an implementation that BLOCKS (a lock left held, a wait that never ends) or runs away would stall the
+// harness for ever; when nothing has been marked for the limit, the input being run is reported and the run is finished.
+func (r *Run) watchdog(outDir string, limit time.Duration) {
+	for {
+		time.Sleep(5 * time.Second)
+		at := atomic.LoadInt64(&r.lastMarkAt)
+		if at == 0 {
+			continue
+		}
+		if time.Since(time.Unix(0, at)) > limit {
+			what, _ := r.lastMark.Load().(string)
+			r.Violations = append(r.Violations, Violation{Kind: "implementation-blocks-or-does-not-return", Input: what,
+				Detail: fmt.Sprintf("no progress for %v while running this input; the harness run was cut short here", limit)})
+			if r.violSeen != nil {
+				r.violSeen["implementation-blocks-or-does-not-return"]++
+			}
+			r.Finish(outDir)
+			os.Exit(0)
+		}
+	}
 }
 
 var markRun *Run
@@ -213,6 +241,7 @@ func main() {
 	r := NewRun(prop, seed, tier, outDir)
 	markRun = r
 	os.Remove(outDir + "/current.txt")
+	go r.watchdog(outDir, 240*time.Second)
 	f(r)
 	if r.markF != nil {
 		r.markF.Close()
